@@ -672,6 +672,32 @@ VH_TARGET(predicate, 1,
     VH_CHECK(c, got == got2, "predicate '" << vh::show(pat) << "' Match('" << vh::show(text) << "') returned " << got
                                            << " and then " << got2 << " for the same text in other storage");
   }
+  // ONE pattern language: whether '.' stands for any one character or for a literal dot is left open by
+  // the documentation (two-valued above), but it cannot depend on which OTHER operators a pattern uses.
+  // The same pattern extended by ".*" (which matches the empty rest in both readings) must answer for
+  // the same text the way ONE of the two readings explains both answers.
+  if (!exact && !is_rx && pat != "*" && pat.find('.') != std::string::npos)
+  {
+    std::string pat2 = pat + ".*";
+    bool r1 = match_at(pat, 0, text, 0, true), l1 = match_at(pat, 0, text, 0, false);
+    bool r2 = match_at(pat2, 0, text, 0, true), l2 = match_at(pat2, 0, text, 0, false);
+    std::unique_ptr<sdkm::Predicate> p2;
+    {
+      Held hp2(pat2, "#~");
+      p2 = sdkm::PredicateFactory::GetPredicate(hp2.view(), sdkm::PredicateType::kPattern);
+      hp2.scribble();
+    }
+    Held ht2(text, "#~");
+    bool got_ext = p2->Match(ht2.view());
+    ht2.scribble();
+    bool regex_reading = got == r1 && got_ext == r2, literal_reading = got == l1 && got_ext == l2;
+    if (r1 != l1 || r2 != l2)
+      c.tag("dot-reading-decides(one-language-check)");
+    VH_CHECK(c, regex_reading || literal_reading,
+             "patterns '" << vh::show(pat) << "' and '" << vh::show(pat2) << "' answer " << got << " and " << got_ext
+                          << " for '" << vh::show(text) << "': no single meaning of '.' explains both (any-character reading: "
+                          << r1 << "," << r2 << "; literal-dot reading: " << l1 << "," << l2 << ")");
+  }
   c.tag(exact ? "type-exact" : is_rx ? "type-pattern-metachar" : "type-pattern");
   if (is_rx)
   {
